@@ -1145,7 +1145,8 @@ impl CommandExecutor for DrawExecutor {
                 if parameters.len() != 1 {
                     return Err(anyhow::anyhow!("TimeAPause command requires 1 argument"));
                 }
-                Ok(CallbackAction::Pause(1000 * parameters[0] as u32))
+                // seconds to milliseconds; a negative count (possible through loop arithmetic) is no pause
+                Ok(CallbackAction::Pause(1000u32.saturating_mul(parameters[0].max(0) as u32)))
             }
 
             IgsCommands::PolymarkerPlot => {
